@@ -10,12 +10,13 @@ Definition mk_progs (l : list (list (N * N))) : list (list treq) :=
   map (map (fun p => mkTReq (fst p) (snd p))) l.
 
 (* harness event kinds: 0 read next_sequence_number (value), 1 write (value),
-   2 acquire, 3 sendto, 4 recvfrom, 5 recvfrom timed out, 6 release, 7 taken from _q *)
+   2 acquire, 3 sendto, 4 recvfrom, 5 recvfrom timed out, 6 release, 7 taken from _q,
+   8 first source line of _send_and_receive executed after the release *)
 Definition lab_code (l : label) : list N :=
   match l with
   | LRead v => [0; v] | LHdr v => [0; v] | LWrite v => [1; v]
   | LAcq => [2; 0] | LSend => [3; 0] | LRecv => [4; 0] | LTimeout => [5; 0]
-  | LRel => [6; 0] | LQGet => [7; 0]
+  | LRel => [6; 0] | LQGet => [7; 0] | LRet => [8; 0]
   end.
 Definition trace_code (tr : list (tid * label)) : list (list N) :=
   map (fun p => N.of_nat (fst p) :: lab_code (snd p)) tr.
